@@ -61,7 +61,7 @@ def gen_case(streams, tier):
     cfg = gen.make_cfg(nets=(2, 16), class_pool=['bit', 'small', 'mid', 'w64'],
                        mem_wide_aw=0.0, regs=(0, 3), mems=(0, 2), async_prob=0.3,
                        names=g.choice(['plain', 'awkward']), awk_internal=0.3,
-                       awk_exclude=('tmp',), dup_mem_name_prob=0.3)
+                       awk_exclude=('tmp',), dup_mem_name_prob=0.3, awk_pair_prob=0.4)
     script = gen.gen_script(g, cfg)
     f = streams['faults']
     sites = enumerate_sites(script, f)
@@ -85,7 +85,7 @@ def gen_case(streams, tier):
     api_prog = c17.gen_program(g) if g.random() < 0.35 else None
     return {'prop': ID, 'script': script, 'sites': sites, 'scheds': scheds,
             'api_prog': api_prog,
-            'compiled': g.random() < 0.08,
+            'compiled': g.random() < 0.2,
             'sched': world.gen_sched(streams, with_iter=False, noise=False)}
 
 
@@ -563,6 +563,12 @@ def run(case, res):
         if w0.name != orig_name:
             w0.name = orig_name
         res.probes.hit('rename_attempts')
+    # the user asks the block for its wires and whittles the answer down in place: the answer
+    # is his to modify, the block's own set is not
+    mine = b.block.wirevector_subset()
+    mine -= b.block.wirevector_subset((pyrtl.Input, pyrtl.Output))
+    while len(mine) > 1:
+        mine.pop()
     try:
         b.block.sanity_check()
         pyrtl.Simulation(tracer=pyrtl.SimulationTrace('all', block=b.block), block=b.block)
